@@ -69,17 +69,29 @@ def run_driver(config="lib", verbose=True):
     H = inputs_hash(config)
     out = os.path.join(CACHE, f"facts-{config}-{H}.json")
     if os.path.exists(out):
+        try: os.utime(out)
+        except OSError: pass
         return out, True, time.time() - t0
     lock = open(os.path.join(CACHE, "lock"), "w")
     fcntl.flock(lock, fcntl.LOCK_EX)
     try:
         if os.path.exists(out):
             return out, True, time.time() - t0
-        # drop stale fact files of this config (keep disk small)
+        # drop stale fact files of this config (keep disk small) -- but never one a concurrent check of another tree may be about to read:
+        # the newest KEEP files and everything younger than 15 minutes stay
+        KEEP = 8
+        old = sorted((os.path.getmtime(os.path.join(CACHE, f)), f) for f in os.listdir(CACHE)
+                     if f.startswith(f"facts-{config}-") and f.endswith(".json"))
+        for mt, f in old[:-KEEP] if len(old) > KEEP else []:
+            if time.time() - mt > 900:
+                try: os.remove(os.path.join(CACHE, f))
+                except OSError: pass
         for f in os.listdir(CACHE):
-            if f.startswith(f"facts-{config}-") and f.endswith(".json"):
-                os.remove(os.path.join(CACHE, f))
+            if ".json.tmp." in f and time.time() - os.path.getmtime(os.path.join(CACHE, f)) > 900:
+                try: os.remove(os.path.join(CACHE, f))
+                except OSError: pass
         target = os.path.join(CACHE, "target-" + config)
+        tmp_out = out + ".tmp.%d" % os.getpid()
         cargo_args, extra = CONFIGS[config]
         env = dict(os.environ)
         env.update({
@@ -87,7 +99,7 @@ def run_driver(config="lib", verbose=True):
             "LD_LIBRARY_PATH": nightly_sysroot() + "/lib",
             "RUSTFLAGS": "-Zmir-opt-level=0 -Awarnings" + extra,
             "RUSTC_WORKSPACE_WRAPPER": DRIVER_BIN, "CARGO_TARGET_DIR": target,
-            "RMF_OUT": out, "RMF_NONCE": H,
+            "RMF_OUT": tmp_out, "RMF_NONCE": H,
         })
         env.pop("RUSTC_WRAPPER", None)
         # force the member crate to be re-analysed (cargo's freshness cache would otherwise skip the wrapper)
@@ -95,6 +107,8 @@ def run_driver(config="lib", verbose=True):
         r = _sh(["cargo", "+nightly", "check", "--offline"] + cargo_args, cwd=REPO, env=env)
         if r.returncode != 0:
             raise InfraError("cargo check under the facts driver failed (does /repo compile?):\n" + r.stdout[-6000:])
+        if os.path.exists(tmp_out):
+            os.replace(tmp_out, out)      # readers outside the lock never see a partially written file
         if not os.path.exists(out):
             raise InfraError("driver produced no fact file (freshness cache skipped it?)\n" + r.stdout[-2000:])
     finally:
